@@ -39,6 +39,7 @@ type X2Config struct {
 	Prefix       []XEvent // the search starts from the state this history leads to (Depth counts the events after it)
 	Store        bool     // run with a store (and hence the persist loop) although Save is not in the alphabet
 	AdvAlways    bool     // clock steps are offered in every state
+	SaveFail     bool     // saves whose write to the store fails are in the alphabet (the next successful save is judged as usual)
 	Svar         bool     // schedule requests that carry a job variable (a different value in every request) are in the alphabet too
 	NoDedup      bool     // every history up to the depth is executed: no state is merged, so state the key cannot see (a flag, a cache, a counter a change may add) cannot hide a history
 	logDir       string
@@ -161,6 +162,9 @@ func (c *X2Config) events(w *World) []XEvent {
 	}
 	if c.Save {
 		evs = append(evs, XEvent{Kind: "Save"})
+	}
+	if c.SaveFail {
+		evs = append(evs, XEvent{Kind: "SaveF"})
 	}
 	return evs
 }
